@@ -34,6 +34,7 @@ def run(rep, tier):
     extremes(rep, F)
     lines_rule(rep, F)
     map_rule(rep, F)
+    error_discipline(rep, F)
 
 
 # ------------------------------------------------------------------ sequence normaliser
@@ -575,3 +576,59 @@ def map_rule(rep, F):
                 rep.bad("R19.4", "map_coords_in_place:" + name, "after map_coords_in_place the value is %s; expected every part replaced by f(that part)" % (val[:160] if ps else "?"), where=fn.loc())
         except (KeyError, Unanalysable) as e:
             rep.bad("R19.4", "map_coords_in_place:%s:anchor" % name, str(e))
+
+
+def error_discipline(rep, F):
+    """R19.4 (fallible in-place variants): once the coordinate function (or a nested try_map_coords_in_place) has returned Err, no further
+    part is mapped on that path — so the first error is the one reported and a later success cannot overwrite it."""
+    from ..memberfold import subterms
+    from ..symex import bare
+    MI = "geo::algorithm::map_coords::MapCoordsInPlace"
+    n = 0
+    for im in F.impls_of(MI):
+        if im["crate"] != "geo":
+            continue
+        fn = F.impl_fn(im, "try_map_coords_in_place")
+        if fn is None:
+            continue
+        name = short(im["self_ty"])
+        for g in [fn] + F.closures_of(fn):
+            try:
+                ps = opaque(F, loop_bound=2, max_paths=20000).run(g)
+            except Unanalysable as e:
+                rep.bad("R19.4", "try_in_place:unanalysable:" + name, str(e), where=g.loc())
+                continue
+            bad = None
+            for p in ps:
+                if p.kind == "cut":
+                    continue
+                first_err = None
+                examined = set()
+                for t, v in p.pc:
+                    for s_ in subterms(t, []):
+                        if s_ and s_[0] == "call" and len(s_) == 4 and (s_[1].endswith("try_map_coords_in_place") or s_[1] == "<indirect>" or s_[1].endswith("::call")):
+                            examined.add(s_[3])
+                            if t[0] == "discr" and v == 1:
+                                first_err = s_[3] if first_err is None else min(first_err, s_[3])
+                fallible = [e for e in p.trace if e[0] == "call" and e[3] is not None and (e[1].endswith("try_map_coords_in_place") or e[1] == "<indirect>" or e[1].endswith("::call"))]
+                for e in fallible[:-1]:
+                    if e[3] not in examined:
+                        bad = "the Result of mapping one part is not examined before the next part is mapped (it is overwritten)"
+                        break
+                if bad:
+                    break
+                if first_err is None:
+                    continue
+                for e in fallible:
+                    if e[3] > first_err:
+                        bad = "after a part failed (%s), another part is still mapped (%s)" % (show_pc(p.pc)[:100], e[1].rsplit("::", 1)[-1])
+                        break
+                if bad:
+                    break
+            n += 1
+            if bad:
+                rep.bad("R19.4", "try_in_place:continues-after-error:" + name, "%s::try_map_coords_in_place: %s: the error of an earlier ring / member can be overwritten by a later success, so the "
+                        "in-place variant returns Ok where try_map_coords returns Err" % (name, bad), where=g.loc())
+            else:
+                rep.ok("R19.4", "try_in_place:stops-at-first-error:%s%s" % (name, "" if g is fn else ":closure"))
+    rep.floor("R19.4", "try_map_coords_in_place bodies", n, 10)
